@@ -296,16 +296,19 @@ class BaseOdeModel(object):
                 raise Warning("Did not set the values of the parameters. " +
                               "Input was None.")
 
-        self._parameters = param_out
-
         # unroll the parameter values into the appropriate list
         # if self._paramValue is None or isinstance(self._paramValue, list):
         #     self._paramValue = dict()
-        self._paramValue = [0]*len(self._paramList)
+        # done on a new list, a name that is rejected here (e.g. the time
+        # symbol 't') must leave the current values untouched
+        param_value = [0]*len(self._paramList)
 
-        for key, val in self._parameters.items():
+        for key, val in param_out.items():
             index = self.get_param_index(key)
-            self._paramValue[index] = val
+            param_value[index] = val
+
+        self._parameters = param_out
+        self._paramValue = param_value
 
         self.set_sp()
 
